@@ -874,6 +874,61 @@ fn pool_checks(threads: usize, ids: &[u16], other: &[u16], hb: u8) -> Result<u64
         if su(t.into_par_iter().map(|x| x.id).collect()) != want {
             return Err(ctx("table into_par_iter"));
         }
+        // a parallel drain that is created and dropped without being driven empties the collection (its elements
+        // are dropped exactly once - the ledger is balanced at the end) and leaves it usable
+        {
+            let mut m = gmap(ids, hb);
+            drop(m.par_drain());
+            let mut st = gset(ids, hb);
+            drop(st.par_drain());
+            let mut t: HashTable<GEl> = HashTable::new();
+            for &i in ids {
+                let e = GEl::new(i);
+                let h = hh(&e);
+                t.insert_unique(h, e, hh);
+            }
+            drop(t.par_drain());
+            if !m.is_empty() || !st.is_empty() || !t.is_empty() {
+                return Err(format!("{}: par_drain() dropped without being driven left {} / {} / {} elements in the map / set / table", ctx("par_drain"), m.len(), st.len(), t.len()));
+            }
+            m.insert(GEl::new(1), GEl::new(1001));
+            st.insert(GEl::new(1));
+            if m.len() != 1 || st.len() != 1 {
+                return Err(ctx("collections unusable after an undriven par_drain"));
+            }
+        }
+        // parallel iteration by reference over tables, parallel extension from references (Copy elements)
+        {
+            let mut t: HashTable<u16> = HashTable::new();
+            let h16 = |e: &u16| ModBuild(hb).hash_one(e);
+            for &i in ids {
+                t.insert_unique(h16(&i), i, h16);
+            }
+            if su((&t).into_par_iter().copied().collect()) != want {
+                return Err(ctx("(&table).into_par_iter()"));
+            }
+            (&mut t).into_par_iter().for_each(|e| *e += 1);
+            if su(t.iter().map(|e| e - 1).collect()) != want {
+                return Err(ctx("(&mut table).into_par_iter() must visit each element exactly once"));
+            }
+            let mut ps: HashSet<u16, ModBuild> = HashSet::with_hasher(ModBuild(hb));
+            ps.par_extend(ids.par_iter());
+            ps.par_extend(other.par_iter());
+            let mut ss: HashSet<u16, ModBuild> = HashSet::with_hasher(ModBuild(hb));
+            ss.extend(ids.iter());
+            ss.extend(other.iter());
+            if ps != ss {
+                return Err(ctx("set par_extend from references differs from extend"));
+            }
+            let pairs: Vec<(u16, u16)> = ids.iter().map(|&i| (i % 11, i)).collect();
+            let mut pm: HashMap<u16, u16, ModBuild> = HashMap::with_hasher(ModBuild(hb));
+            pm.par_extend(pairs.par_iter().map(|(k, v)| (k, v)));
+            let mut sm: HashMap<u16, u16, ModBuild> = HashMap::with_hasher(ModBuild(hb));
+            sm.extend(pairs.iter().map(|(k, v)| (k, v)));
+            if pm != sm {
+                return Err(ctx("map par_extend from (&K, &V) differs from extend (last value must win)"));
+            }
+        }
         Ok(())
     })?;
     n += 30;
